@@ -87,7 +87,7 @@ def long_name_history(rng, length, which):
         t = w.mk('T', b, name='t' * length); g = w.mk('G', b, name='g' * length)
     w.emit('link ref %s handle %s' % (t.slot, a.slot))
     if rng.random() < 0.5: w.emit('link mA %s handle %s' % (g.slot, a.slot))
-    w.emit('dump'); w.delete(a, rng.choice(['name', 'handle'])); w.emit('dump'); w.emit('valid %s' % a.slot)
+    w.emit('dump'); w.delete(a, rng.choice(['name', 'handle'])); w.emit('dump'); w.emit('valid %s deleted' % a.slot)
     return w.lines
 
 def history(rng, tier):
@@ -123,7 +123,7 @@ def history(rng, tier):
         else:
             w.delete(v, how)
         w.emit('dump')
-        w.emit('valid %s' % v.slot)
+        w.emit('valid %s deleted' % v.slot)
     return w.lines
 
 def cases(tier, seed, rng):
@@ -138,6 +138,6 @@ def cases(tier, seed, rng):
     return out
 
 def nontrivial(case, tags):
-    return any(t == 'dump.after_delete' for t in tags)
+    return any(t.startswith('dump.after_delete') for t in tags)
 def signature(f):
     return '%s:%s:%s' % (f.kind, f.tag(), f.rule())
